@@ -66,6 +66,12 @@ def generate(repo: Repo, reg: Registry, c: Contract) -> tuple[list[VC], Verifier
     repo.load(module)
     for m in sorted(reg.modules):
         repo.load(m)
+    from pyvc.source import ClassInfo
+
+    for oc in reg.opaque_classes:
+        if oc not in repo.classes:
+            repo.classes[oc] = ClassInfo(oc, "<dependency>", ast.ClassDef(name=oc, bases=[], keywords=[], body=[], decorator_list=[]), [])
+            repo.class_id.setdefault(oc, len(repo.class_id) + 1)
     eng.cur_module = module
     eng.cur_class = ci
 
@@ -106,7 +112,7 @@ def generate(repo: Repo, reg: Registry, c: Contract) -> tuple[list[VC], Verifier
             continue
         subs = repo.subclasses(cname)
         val = z3.Select(st.h("f." + fld), r_)
-        st.pc = st.pc + (z3.ForAll([r_], z3.Implies(z3.And(0 <= r_, r_ < st.alloc, z3.Or([_cls_of(r_) == eng.cid(c) for c in subs])), eng.has_type(val, fty, st))),)
+        st.pc = st.pc + (z3.ForAll([r_], z3.Implies(z3.And(0 <= r_, r_ < st.alloc, z3.Or([_cls_of(r_) == eng.cid(c) for c in subs])), eng.deep_type(val, fty, st, 1))),)
     entry = st.copy()
     st.entry = entry
     entry.entry = entry
